@@ -400,16 +400,20 @@ Definition mat_lookup (vr : variant) (t : table) (phs : list string) (cc : ccach
 (* the same without any cache *)
 Definition phase_part_pure (vr : variant) (t : table) (phs : list string) (k : key) : res (mindex * kind) :=
   snd (phase_part vr t phs [] k).
+Definition classify_mat_h (vr : variant) (t : table) (phs : list string) (k : key) : res mval :=
+  match classify_chem t k with
+  | Ok (ci, kd) => Ok (MChem ci, kd, true)
+  | Err EKey => do v <- phase_part_pure vr t phs k; let (mi, kd) := v : mindex * kind in Ok (mi, kd, false)
+  | Err e => Err e
+  end.
 Definition classify_mat (vr : variant) (t : table) (phs : list string) (k : key) : res mval :=
   match mat_key k with
   | None => Err EType
-  | Some k' =>
-      match classify_chem t k' with
-      | Ok (ci, kd) => Ok (MChem ci, kd, true)
-      | Err EKey => do v <- phase_part_pure vr t phs k'; let (mi, kd) := v : mindex * kind in Ok (mi, kd, false)
-      | Err e => Err e
-      end
+  | Some k' => classify_mat_h vr t phs k'
   end.
+(* what index_overlap returns, from the table alone *)
+Definition overlap_pure (t : table) (cas : list string) : res cindex :=
+  do li <- overlap_loop t cas; Ok (CMany (map Pos li)).
 
 (* ------------------------------------------------------------------ reading *)
 Inductive val := VNum (x : Q) | VVec (v : vec) | VMat (m : list vec).
@@ -480,6 +484,12 @@ Definition mat_get (n : nat) (rows : list vec) (v : mval) : res val :=
                 | _ => Err EOther
                 end
     end.
+
+(* indexer[key] computed from the table alone (no cache) *)
+Definition read_chem (t : table) (d : vec) (k : key) : res val :=
+  do v <- classify_chem t k; get_sparse d (fst v) (snd v).
+Definition read_mat (vr : variant) (t : table) (n : nat) (phs : list string) (rows : list vec) (k : key) : res val :=
+  do v <- classify_mat vr t phs k; mat_get n rows v.
 
 (* ------------------------------------------------------------------ writing *)
 Inductive data := DNum (x : Q) | DVec (v : vec) | DMat (m : list vec).
@@ -811,3 +821,61 @@ Definition case_eqb (vr : variant) (chems : list chem) (cops : list cop)
           && forallb (fun pc => mcache_eqb (mc_get (smc s) (fst pc)) (snd pc)) exp_mc
       end
   end.
+
+(* ------------------------------------------------------------------ positional specification
+   (what "the corresponding entries of the underlying flow data" means, from the name table alone) *)
+Definition tpos (x : target) : list nat := match x with Pos i => [i] | Grp l => l end.
+
+Fixpoint names_targets (t : table) (l : list key) : option (list target) :=
+  match l with
+  | [] => Some []
+  | KStr s :: r => match tget t s, names_targets t r with
+                   | Some x, Some xs => Some (x :: xs)
+                   | _, _ => None
+                   end
+  | _ => None
+  end.
+
+(* single-phase data *)
+Definition spec_chem (t : table) (d : vec) (k : key) : option val :=
+  match k with
+  | KStr s => match tget t s with Some x => Some (VNum (tsum d x)) | None => None end
+  | KEll => Some (VVec d)
+  | KTup l | KList l =>
+      match names_targets t l with Some xs => Some (VVec (map (tsum d) xs)) | None => None end
+  | KObj _ => None
+  end.
+
+(* multi-phase data: chemical keys read the phase-summed data; then phase, (phase, key), (..., key) *)
+Definition spec_pair (t : table) (phs : list string) (rows : list vec) (p c : key) : option val :=
+  match p with
+  | KEll =>
+      match c with
+      | KEll => Some (VMat rows)
+      | KStr s => match tget t s with Some x => Some (VVec (map (fun r => tsum r x) rows)) | None => None end
+      | KTup l | KList l =>
+          match names_targets t l with Some xs => Some (VMat (map (fun r => map (tsum r) xs) rows)) | None => None end
+      | KObj _ => None
+      end
+  | KStr s => if len1 s then match pcall phs s with Ok r => spec_chem t (nth r rows []) c | Err _ => None end else None
+  | _ => None
+  end.
+
+Definition spec_mat (t : table) (phs : list string) (n : nat) (rows : list vec) (k : key) : option val :=
+  match spec_chem t (colsum n rows) k with
+  | Some v => Some v
+  | None =>
+      match k with
+      | KStr s => if len1 s then match pcall phs s with Ok r => Some (VVec (nth r rows [])) | Err _ => None end else None
+      | KTup [p; c] | KList [p; c] => spec_pair t phs rows p c
+      | _ => None
+      end
+  end.
+
+(* positions a chemical index denotes *)
+Definition cpos (n : nat) (ci : cindex) : list nat :=
+  match ci with CAll => seq 0 n | COne x => tpos x | CMany xs => flat_targets xs end.
+
+(* the names of the chemicals, as the configuration calls define them *)
+Definition chem_names (all : list chem) (c : chem) : list string :=
+  cid c :: ccas c :: filter (fun n => negb (repeated all n)) (cnames c).
